@@ -82,7 +82,8 @@ def eval_case(case):
     # Terrapin context of the target, by the published rule
     has_marker, vs, exposed = c04.reference({'role': role, 'kex': lists['kex'], 'enc': lists['enc'], 'mac': lists['mac']})
     want = ref_notes(db, cat, name)
-    if want is not None and exposed and name in vs and cat in ('enc', 'mac'):
+    affected = exposed and name in vs and ((cat == 'enc' and (refmodel.is_chacha(name) or refmodel.is_cbc(name))) or (cat == 'mac' and refmodel.is_etm(name)))
+    if want is not None and affected:
         want['warn'][TWTEXT] += 1
     views = {}
     for view in ('text', 'json'):
@@ -104,6 +105,29 @@ def eval_case(case):
             finds = report.TextReport(r.out).findings()
         got = got_notes(finds, cat, name)
         views[view] = got
+        n_occ = lists[cat].count(name)
+        if n_occ > 1:
+            # every occurrence must carry the same notes: compare the per-occurrence notes one by one
+            if view == 'text':
+                occ = [a for a in report.TextReport(r.out).algs.get(cat, []) if a['name'] == name]
+                per = [got_notes([(cat, name, sev, t) for sev, t in a['notes']], cat, name) for a in occ]
+            else:
+                occ = [e for e in json.loads(r.out).get(cat, []) if e['algorithm'] == name]
+                per = [got_notes([(cat, name, sev, t) for sev in ('fail', 'warn', 'info') for t in e['notes'].get(sev, [])], cat, name) for e in occ]
+            if len(per) != n_occ or any(p != per[0] for p in per):
+                fails.append(['occurrences-of-one-name-rated-differently-%s' % view, '%s %r x%d: %r' % (cat, name, n_occ, per)])
+            got = per[0] if per else got
+            # latitude: the Terrapin note may be attached once per advertised occurrence
+            if got['warn'][TWTEXT] > 1:
+                got['warn'][TWTEXT] = 1
+        # the same name advertised in another category as well: each category rates it on its own
+        for c2 in CATS:
+            if c2 != cat and name in lists[c2]:
+                w2 = ref_notes(db, c2, name)
+                g2 = got_notes(finds, c2, name)
+                if w2 is None:
+                    if not any('unknown algorithm' in t for sev in ('fail', 'warn') for t in g2[sev]):
+                        fails.append(['unknown-name-not-flagged-in-second-category-%s' % view, '%s %r also in %s: notes there %r' % (cat, name, c2, dict(g2))])
         if want is None:
             flagged = any('unknown algorithm' in t for sev in ('fail', 'warn') for t in got[sev])
             if not flagged:
@@ -124,7 +148,7 @@ def eval_case(case):
     is_gss = cat == 'kex' and name.startswith('gss-')
     nt = pos > 0 or sum(len(lists[c]) for c in CATS) >= 7 or is_gss or want is None
     cl = ['cat:' + cat, 'role:' + role, 'pos:%s' % ('first' if pos == 0 else ('last' if pos == len(lists[cat]) - 1 else 'middle')), 'unknown' if want is None else ('gss' if is_gss else 'known')]
-    if exposed and name in vs:
+    if affected:
         cl.append('terrapin-context')
     return mkres(case, nt=nt, classes=cl, fails=fails)
 
@@ -153,7 +177,14 @@ def strat_scan():
             name = unk
         else:
             name = names[idx % len(names)]
-        return build_case(cat, name, role, pos, {'kex': nk, 'key': nh, 'enc': ne, 'mac': nm})
+        case = build_case(cat, name, role, pos, {'kex': nk, 'key': nh, 'enc': ne, 'mac': nm})
+        if idx % 7 == 0:        # the target twice in its own list
+            case['lists'][cat] = case['lists'][cat] + [name]
+        if idx % 5 == 0:        # and also advertised in another category
+            c2 = CATS[(CATS.index(cat) + 1 + idx % 3) % 4]
+            if name not in case['lists'][c2]:
+                case['lists'][c2] = case['lists'][c2] + [name]
+        return case
     nl = lambda c: st.lists(st.sampled_from(gens.db_names(c)), min_size=0, max_size=5, unique=True)
     return st.tuples(st.sampled_from(CATS), st.integers(0, 10000), st.sampled_from(['server', 'server', 'client']), st.integers(0, 5), nl('kex'), nl('key'), nl('enc'), nl('mac'),
                      st.sampled_from(['db'] * 6 + ['gss', 'gss', 'unknown']), gens.gss_name(), gens.unknown_name(20).filter(lambda s: not s.startswith('gss-'))).map(build)
